@@ -196,6 +196,9 @@ type funcDecl struct {
 	Ctor      bool
 	Closure   string // "" | "go" | "lit" | "defer"
 	Entry     []lockRef
+	File      string // source range of the context (JSON sidecar only; never emitted to Coq)
+	Start     int
+	End       int
 	recvObj   types.Object
 	isTop     bool
 }
@@ -792,6 +795,8 @@ func (a *analyzer) closure(c *fnCtx, st *state, lit *ast.FuncLit, kind string) {
 	}
 	fd := a.newFunc(name, kind)
 	fd.Ctor = c.ctor
+	fd.File, fd.Start = a.pos(lit.Pos())
+	_, fd.End = a.pos(lit.End())
 	fd.ValueUsed = kind == "lit"
 	sub := &fnCtx{decl: fd, recvObj: c.recvObj, ctor: c.ctor, fresh: map[types.Object]bool{},
 		ords: map[string]int{}, topName: c.topName}
@@ -1418,6 +1423,8 @@ func (a *analyzer) analyzePackage(path string) {
 				c.recvObj = a.info.Defs[fd.Recv.List[0].Names[0]]
 			}
 			decl.recvObj = c.recvObj
+			decl.File, decl.Start = a.pos(fd.Pos())
+			_, decl.End = a.pos(fd.End())
 			a.walkBlock(c, &state{}, fd.Body)
 		}
 	}
